@@ -32,6 +32,10 @@ type Zone struct {
 	ID      string
 	Name    string
 	Records []*Record
+	// Status: "" = "active"; a zone that was added but whose name servers have not been switched yet is "pending" (its records
+	// can be listed and edited like any other's). The zone listing honours the documented filters name, status and
+	// account.id: a request that filters on a status gets the zones that have it.
+	Status string
 }
 
 type Request struct {
@@ -129,7 +133,11 @@ func (a *API) roundTrip(req *http.Request) (*http.Response, error) {
 		res := []z{}
 		for _, zz := range a.Zones {
 			// (zone names are matched without regard to letter case, as DNS names are; the canonical spelling is returned)
-			if q.Get("name") == "" || strings.EqualFold(q.Get("name"), zz.Name) {
+			st := zz.Status
+			if st == "" {
+				st = "active"
+			}
+			if (q.Get("name") == "" || strings.EqualFold(q.Get("name"), zz.Name)) && (q.Get("status") == "" || q.Get("status") == st) {
 				res = append(res, z{zz.ID, zz.Name})
 			}
 		}
